@@ -16,7 +16,7 @@ from bctmc.tally import Tally
 
 PROPERTY = 'C14'
 RULE = ('all 15 set partitions of 4 nodes x relabelling family {zero-based, reversed, x10, sparse, +10^6, float, negative, all '
-        'renamings for k<=3} x W in {all 64 binary 4-node graphs, weights {0,1,2} (729), signed {-1,0,1} (729), binary '
+        'renamings for k<=3} x W in {all 64 binary 4-node graphs, weights {0,1,2} (729) and {0,1/2,1} (729), 3-node digraphs over {0,1/2,2} (729), signed {-1,0,1} (729), binary '
         'digraphs with <=... (every 16th of 4096)} for participation_coef (3 degree modes), participation_coef_sign, '
         'module_degree_zscore (flags 0-3), diversity_coef_sign, gateway_coef_sign (2 centrality types), modularity_und/_dir '
         '(kci), modularity_und_sign; partition_distance on all ordered pairs of partitions of 4 and 5 nodes (2704) with '
@@ -56,6 +56,8 @@ def functions_for(kind):
 
 FAMILIES = {
     'bu4': ('bu', False, 4, (0, 1), 1, 'q'), 'wu4': ('wu', False, 4, (0, 1, 2), 1, 'q'),
+    'wh4': ('wu', False, 4, (0, 0.5, 1), 1, 'q'),      # weights below 1: strengths differ from neighbour counts
+    'wd3': ('bd', True, 3, (0, 0.5, 2), 1, 'q'),
     'su4': ('su', False, 4, (-1, 0, 1), 1, 'q'), 'bd4': ('bd', True, 4, (0, 1), 16, 'q'),
     'bu5': ('bu', False, 5, (0, 1), 1, 't'), 'bd4_all': ('bd', True, 4, (0, 1), 1, 't'),
     'su4w': ('su', False, 4, (-2, 0, 1), 1, 't'),
